@@ -1021,9 +1021,44 @@ func (c *Conn) closeWithError(err error) error {
 	return nil
 }
 
+// takeOnConnected returns the pending dial callback, if any, and clears it,
+// so that the dial result is reported exactly once. Once the connection is
+// closed the callback belongs to the close path.
+//
+//go:norace
+func (c *Conn) takeOnConnected() func(c *Conn, err error) {
+	c.mux.Lock()
+	var h func(c *Conn, err error)
+	if !c.closed {
+		h = c.onConnected
+		c.onConnected = nil
+	}
+	c.mux.Unlock()
+	return h
+}
+
 //go:norace
 func (c *Conn) closeWithErrorWithoutLock(err error) error {
 	c.closeErr = err
+
+	// c.closed has been set under the mutex by the caller, so the pending
+	// dial callback, if any, is owned by this path now.
+	if onConnected := c.onConnected; onConnected != nil {
+		// closed before the connection was established (e.g. dial timeout):
+		// the dialer is still waiting for the result.
+		c.onConnected = nil
+		dialErr := err
+		if dialErr == nil {
+			dialErr = net.ErrClosed
+		}
+		if c.p != nil {
+			c.p.g.Async(func() {
+				onConnected(c, dialErr)
+			})
+		} else {
+			onConnected(c, dialErr)
+		}
+	}
 
 	if c.writeList != nil {
 		for _, t := range c.writeList {
